@@ -384,8 +384,31 @@ def gen_programs():
     return _GEN["p"]
 
 
+def _freeze_generated():
+    """The generated corpus is built from the live catalogue of checks/c21.py.  Child processes of one run must see
+    exactly the DEX the main process saw, even if c21.py is edited meanwhile: the main process stores the bytes in a
+    temporary file (removed at exit) and hands its path down through the environment."""
+    if os.environ.get("C22_GEN_DEX") and os.path.exists(os.environ["C22_GEN_DEX"]):
+        return
+    import atexit
+    import shutil
+    import tempfile
+    tmp = tempfile.mkdtemp(prefix="verif_c22_")
+    path = os.path.join(tmp, "generated.dex")
+    with open(path, "wb") as f:
+        f.write(gen_dex())
+    os.environ["C22_GEN_DEX"] = path
+    owner = os.getpid()
+    atexit.register(lambda: os.getpid() == owner and shutil.rmtree(tmp, ignore_errors=True))
+
+
 def gen_dex():
     if "dex" not in _GEN:
+        frozen = os.environ.get("C22_GEN_DEX")
+        if frozen and os.path.exists(frozen):
+            with open(frozen, "rb") as f:
+                _GEN["dex"] = f.read()
+            return _GEN["dex"]
         from gen import dexgen as G
         classes, groups = [], {}
         for x in gen_programs():
@@ -978,6 +1001,7 @@ def space(ctx):
 
 
 def shards(ctx):
+    _freeze_generated()
     sizes = all_sizes(ctx.repo)
     out = []
     big = [n for n in CORPORA if sum(sizes[n]) > 1000]
@@ -1358,7 +1382,8 @@ def finalize(ctx, acc):
         acc.harness_error("degenerate space: %r" % (e,))
     if e.get("same_object_histories", 0) < 3 * e.get("methods", 0):
         acc.harness_error("same-object histories (repeat / reprocess / class-then-method) not run for every method")
-    if e.get("generated_methods", 0) != len(gen_programs()):
-        acc.harness_error("generated corpus not (fully) explored: %r of %d" % (e.get("generated_methods"), len(gen_programs())))
+    ngen = sum(all_sizes(ctx.repo)[GEN])
+    if e.get("generated_methods", 0) != ngen or ngen < 900:
+        acc.harness_error("generated corpus not (fully) explored: %r of %d" % (e.get("generated_methods"), ngen))
     if len(acc.states) < e.get("methods", 0) // 2:
         acc.harness_error("fewer observed states than methods/2")
